@@ -1027,9 +1027,21 @@ func runPipe(t *testing.T, r *rep.Reporter, c *rep.Case, idx int) {
 	nTx := p.Range(1, 3)
 	var shape []string
 	nontrivial := false
+	var prevMeta *module.MsgMetadata
+	var prevSupplied []string
 	for tx := 1; tx <= nTx; tx++ {
 		meta := &module.MsgMetadata{ID: fmt.Sprintf("%st%d", tag, tx)}
 		meta.SMTPOpts.UTF8 = true
+		// A retry as target.queue makes it: the same recipients again, with a DeepCopy of the
+		// metadata of the earlier attempt - which SHARES its maps (OriginalRcpts already holds the
+		// rewrites recorded by the first attempt).
+		retryOf := []string(nil)
+		if prevMeta != nil && hash01(salt, "retry-with-shared-metadata", fmt.Sprint(tx)) < 0.4 {
+			meta = prevMeta.DeepCopy()
+			meta.ID = fmt.Sprintf("%st%d", tag, tx)
+			retryOf = prevSupplied
+			r.Count("pipe_transactions_retried_with_metadata_of_earlier_attempt", 1)
+		}
 		d, err := pl.Start(ctx, meta, "sender@src.example")
 		if err != nil {
 			t.Fatalf("pipeline Start: %v", err)
@@ -1060,6 +1072,9 @@ func runPipe(t *testing.T, r *rep.Reporter, c *rep.Case, idx int) {
 			m[k][a] = true
 		}
 		rcptErr := map[string]string{}
+		if retryOf != nil {
+			n = len(retryOf)
+		}
 		for i := 0; i < n; i++ {
 			a := variantCase(p, prng.Pick(p, clients))
 			if i > 0 && p.Chance(1, 10) {
@@ -1067,6 +1082,9 @@ func runPipe(t *testing.T, r *rep.Reporter, c *rep.Case, idx int) {
 			}
 			if i < len(must) {
 				a = must[i] // the named chain members, always together
+			}
+			if retryOf != nil {
+				a = retryOf[i]
 			}
 			pt.Supplied = append(pt.Supplied, a)
 			before := lg.Len()
@@ -1117,6 +1135,7 @@ func runPipe(t *testing.T, r *rep.Reporter, c *rep.Case, idx int) {
 			}
 			pt.Accepted[a] = true
 		}
+		prevMeta, prevSupplied = meta, append([]string(nil), pt.Supplied...)
 		pd, ok := d.(module.PartialDelivery)
 		if !ok {
 			t.Fatal("pipeline delivery does not implement PartialDelivery")
